@@ -12,13 +12,14 @@ structure RegItem where
   hasTL1 : Bool
   hasTL2 : Bool
   idx : Nat
+  ann : Nat := 0
   deriving Repr, DecidableEq, Inhabited
 
 def regItemOf (d : Desc) (n : InstName) : Option RegItem :=
   if !n.topLevel then none else
   match d.get? n.idx with
-  | some (.struct s) => some { name := n.tlname, tag := s.tag, isFunction := s.isFunction, hasTL1 := !s.originTL2, hasTL2 := s.hasTL2, idx := n.idx }
-  | some (.union u) => if u.hasTL2 then some { name := n.tlname, tag := 0, isFunction := false, hasTL1 := true, hasTL2 := true, idx := n.idx } else none
+  | some (.struct s) => some { name := n.tlname, tag := s.tag, isFunction := s.isFunction, hasTL1 := !s.originTL2, hasTL2 := s.hasTL2, idx := n.idx, ann := n.ann }
+  | some (.union u) => if u.hasTL2 then some { name := n.tlname, tag := 0, isFunction := false, hasTL1 := true, hasTL2 := true, idx := n.idx, ann := n.ann } else none
   | _ => none
 
 def registry (d : Desc) : List RegItem := d.names.filterMap (regItemOf d)
